@@ -39,7 +39,9 @@ func VxH_Map_resizePar(opB, hint, tableLen, mode int) {
 	VxAssert(vxFinalEq(m, &c1, kB, kB), "no write lost, no entry resurrected, Size exact after a concurrent resize: the quiescent map equals the reference content")
 	nt := (*mapTable)(atomic.LoadPointer(&m.table))
 	VxAssert(atomic.LoadInt64(&m.resizing) == 0, "the resizing flag is clear once every call has returned")
-	if mapResizeHint(hint) == mapGrowHint {
+	if opB == mopClear {
+		VxAssert(len(nt.buckets) == 1 || (mapResizeHint(hint) == mapGrowHint && len(nt.buckets) == 2*tableLen), "Clear: table reset to its minimum, or doubled by a grow ordered after the Clear")
+	} else if mapResizeHint(hint) == mapGrowHint {
 		VxAssert(len(nt.buckets) == 2*tableLen, "the grow completed: table doubled")
 	} else {
 		VxAssert(len(nt.buckets) == tableLen || len(nt.buckets) == tableLen/2, "shrink: table kept or halved")
@@ -73,7 +75,9 @@ func VxH_MapOf_resizePar(opB, hint, tableLen, mode, slots int) {
 	VxAssert(vxFinalEqOf(m, &c1, kB, kB), "no write lost, no entry resurrected, Size exact after a concurrent resize: the quiescent map equals the reference content")
 	nt := (*mapOfTable[int, int])(atomic.LoadPointer(&m.table))
 	VxAssert(atomic.LoadInt64(&m.resizing) == 0, "the resizing flag is clear once every call has returned")
-	if mapResizeHint(hint) == mapGrowHint {
+	if opB == mopClear {
+		VxAssert(len(nt.buckets) == 1 || (mapResizeHint(hint) == mapGrowHint && len(nt.buckets) == 2*tableLen), "Clear: table reset to its minimum, or doubled by a grow ordered after the Clear")
+	} else if mapResizeHint(hint) == mapGrowHint {
 		VxAssert(len(nt.buckets) == 2*tableLen, "the grow completed: table doubled")
 	} else {
 		VxAssert(len(nt.buckets) == tableLen || len(nt.buckets) == tableLen/2, "shrink: table kept or halved")
